@@ -680,6 +680,19 @@ func (e *Env) evalCall(n *ECall) SVal {
 		need(1)
 		c.declareFun("be64.dec", []Sort{SStr}, SInt)
 		return SVal{T: app(SInt, "be64.dec", arg(0).T)}
+	case "deref":
+		// deref(p): the value a pointer to a non-struct type (e.g. *types.Address) points to
+		need(1)
+		p := arg(0)
+		if p.Type == nil {
+			return e.errf("deref of untyped value")
+		}
+		pt, ok := p.Type.Underlying().(*types.Pointer)
+		if !ok {
+			return e.errf("deref of non-pointer %s", p.Type)
+		}
+		loc := c.derefLoc(Val{T: p.T}, p.Type)
+		return SVal{T: c.load(e.cur, loc), Type: pt.Elem()}
 	case "visited":
 		// visited(k): inside an invariant of a loop that ranges over a map - key k has already been handed out by the
 		// iteration (the order is arbitrary: the model visits the keys in an unknown permutation)
